@@ -36,7 +36,10 @@ PLAN = {
             ("reverse_reaction", "StereoCondensedReactionGraph", "quick", 1, ("view", "wf", "source"), 3)],
     "C11": [("relabel_atoms(copy=True)", c, "quick", 1, ("view", "wf", "source")) for c in ("MolGraph", "CondensedReactionGraph")]
            + [("relabel_atoms(copy=True)", "StereoMolGraph", "quick", 1, ("view", "wf", "source"), 2),
-              ("relabel_atoms(copy=True)", "StereoCondensedReactionGraph", "quick", 1, ("view", "wf", "source"), 4)],
+              ("relabel_atoms(copy=True)", "StereoCondensedReactionGraph", "quick", 1, ("view", "wf", "source"), 4)]
+           # in place: the graph itself gets the same renamed views (same contract, result is self)
+           + [("relabel_atoms(copy=False)", c, "quick", 1, ("view", "wf")) for c in ("MolGraph", "CondensedReactionGraph")]
+           + [("relabel_atoms(copy=False)", "StereoMolGraph", "quick", 1, ("view", "wf"), 2), ("relabel_atoms(copy=False)", "StereoCondensedReactionGraph", "quick", 1, ("view", "wf"), 4)],
 }
 
 
@@ -98,7 +101,7 @@ def tasks(pid, tier, timeout):
 
 def functions(world, pid):
     seen, out = set(), []
-    names = {"copy": "copy", "copy_constructor": "__init__", "subgraph": "subgraph", "subgraph(any size)": "subgraph", "enantiomer": "enantiomer", "relabel_atoms(copy=True)": "relabel_atoms", "reverse_reaction": "reverse_reaction", "reactant": "reactant", "product": "product"}
+    names = {"copy": "copy", "copy_constructor": "__init__", "subgraph": "subgraph", "subgraph(any size)": "subgraph", "enantiomer": "enantiomer", "relabel_atoms(copy=True)": "relabel_atoms", "relabel_atoms(copy=False)": "relabel_atoms", "reverse_reaction": "reverse_reaction", "reactant": "reactant", "product": "product"}
     if pid == "C06":
         out.append(src_info("stereodescriptors.py", "_StereoMixin.invert"))
     if pid == "C11":
